@@ -1,6 +1,9 @@
 """Per-property configuration of the driver."""
 
 PROPS = {
+    "C08": dict(level="proof", num=8, rule="see harness c08.go"),
+    "C11": dict(level="proof", num=11, rule="see harness c11.go"),
+    "C15": dict(level="proof", num=15, rule="see harness c15.go"),
     "C03": dict(level="proof", num=3, rule="see harness c03.go"),
     "C20": dict(level="proof", num=20, rule="see harness c20.go",
                 trusted=["Kaitai runtime semantics (repeat: eos, u1/u4le, contents check, vlq_base128_le value of <= 8 groups) are modelled in RecordIO/Kaitai.v; the payload length expression, magic contents and compression enum are regenerated from recordio_v4.ksy (gen/FactsKsy.v); agreement of the generated Go reader with that model is checked by the correspondence"]),
